@@ -250,6 +250,7 @@ func ruleToken(c *Ctx) {
 			dn = append(dn, fname(d))
 		}
 		l.stat("R-TOKEN").Extra[b.Name+"_decoders"] = dn
+		b.resolverDecides(l)
 		// the pointer is split as given: strings.Split(path, "/") applied to the path parameter
 		// itself, and exactly the element in front of the first "/" is dropped (a trimmed or
 		// cleaned path loses leading empty reference tokens: "//a" is the member "a" of the
